@@ -14,13 +14,19 @@ Cfg(how, level, t, cn, rd, st, ot, al, fl, ros, resp, fa, bm, ji, meth, route, k
      allowed |-> al, forcelist |-> fl, ros |-> ros, respect |-> resp, factor |-> fa, bmax |-> bm, jitter |-> ji,
      method |-> meth, route |-> route, ka |-> ka]
 
-\* every counter combination of the property's quantifier x gating flags (backoff fixed)
-BudgetCfgs(T, CR, SO, meths, routes) ==
+\* every counter combination of the property's quantifier x what gates a retry (backoff fixed)
+BudgetCfgs(T, CR, SO, AL, FL, ROS, RESP, meths, routes) ==
     { Cfg("retry", "request", t, cn, rd, st, ot, al, fl, ros, resp, 0, DefaultBackoffMax, 0, meth, route, "keep") :
-        t \in T, cn \in CR, rd \in CR, st \in SO, ot \in SO, al \in {"default", "none", "post"},
-        fl \in BOOLEAN, ros \in BOOLEAN, resp \in BOOLEAN, meth \in meths, route \in routes }
-CfgsBudgetsQuick    == BudgetCfgs({NoneV, FalseV, 0, 1}, {NoneV, FalseV, 0, 1}, {NoneV, 0, 1}, {"GET", "POST"}, {"direct", "forward"})
-CfgsBudgetsThorough == BudgetCfgs({NoneV, FalseV, 0, 1, 2}, {NoneV, FalseV, 0, 1, 2}, {NoneV, 0, 1, 2}, {"GET", "POST"}, {"direct", "forward"})
+        t \in T, cn \in CR, rd \in CR, st \in SO, ot \in SO, al \in AL,
+        fl \in FL, ros \in ROS, resp \in RESP, meth \in meths, route \in routes }
+Al3 == {"default", "none", "post"}
+GP  == {"GET", "POST"}
+CfgsBudgetsQuick ==
+    BudgetCfgs({NoneV, FalseV, 0, 1}, {NoneV, FalseV, 0, 1}, {NoneV, 0, 1}, {"default", "none"}, {TRUE}, {TRUE}, {TRUE}, GP, {"direct"})
+    \cup BudgetCfgs({NoneV, FalseV, 0, 1}, {NoneV, 0}, {NoneV, 0, 1}, Al3, BOOLEAN, BOOLEAN, BOOLEAN, GP, {"direct", "forward"})
+CfgsBudgetsThorough ==
+    BudgetCfgs({NoneV, FalseV, 0, 1, 2}, {NoneV, FalseV, 0, 1, 2}, {NoneV, 0, 1, 2}, Al3, BOOLEAN, {TRUE}, {TRUE}, GP, {"direct"})
+    \cup BudgetCfgs({NoneV, FalseV, 0, 1, 2}, {NoneV, FalseV, 0, 1}, {NoneV, 0, 1}, Al3, BOOLEAN, BOOLEAN, BOOLEAN, GP, {"direct", "forward"})
 \* backoff x Retry-After handling, everything retryable
 CfgsBackoff ==
     { Cfg("retry", "request", t, NoneV, NoneV, NoneV, NoneV, "none", TRUE, ros, resp, fa, bm, ji, "POST", "direct", ka) :
